@@ -44,8 +44,9 @@ def jobs(tier, seed):
         out.append({'name': op + '-range-flat', 'kind': 'range', 'op': op, 'shape': [3, 3] if op == 'hillshade' else [4, 4], 'res': 1, 'dtype': 'float64'})
         if op != 'hillshade':
             out.append({'name': op + '-rot90', 'kind': 'rot90', 'op': op, 'shape': [4, 4], 'res': 0, 'dtype': 'float64'})
-        if tier != 'quick':
-            out.append({'name': op + '-formula-int', 'kind': 'formula', 'op': op, 'shape': [4, 4], 'res': 1, 'dtype': 'int32'})
+        out.append({'name': op + '-formula-int', 'kind': 'formula', 'op': op, 'shape': [4, 4], 'res': 1, 'dtype': 'int32'})
+        # dimension names other than y / x, cell size from (symbolic) coordinates
+        out.append({'name': op + '-formula-symcoords-lat-lon-dims', 'kind': 'formula', 'op': op, 'shape': [4, 4], 'res': 'coords', 'dtype': 'float64', 'dims': ['lat', 'lon']})
     out.append({'name': 'hillshade-symbolic-angles', 'kind': 'formula', 'op': 'hillshade', 'shape': [3, 4], 'res': 0, 'dtype': 'float64', 'sym_angles': True})
     out.append({'name': 'summarize_terrain', 'kind': 'summary', 'op': 'summary', 'shape': [4, 4], 'res': 1, 'dtype': 'float64'})
     return out
@@ -110,7 +111,7 @@ def _mk(ctx, job, name='z', data=None):
         attrs['res'] = r
         csx, csy = (r, r) if not isinstance(r, tuple) else r
     attrs['unit'] = 'm'
-    return raster(data, ys=ys, xs=xs, attrs=attrs, name='elev'), data, csx, csy
+    return raster(data, dims=tuple(job.get('dims', ('y', 'x'))), ys=ys, xs=xs, attrs=attrs, name='elev'), data, csx, csy
 
 
 def _call(ctx, op, agg, az=225, alt=25):
